@@ -229,6 +229,13 @@ def yield_merge_preserved(old_text, new_text):
         if t == "_" and p_new.get(("_", v), 0) > 0:
             del missing[(t, v)]
             p_old[(t, v)] = p_new[(t, v)]
+        elif t == "_" and any(v2 == v for (_t2, v2) in p_new):
+            # ... and a duplicate thrown away into `_` is dropped when the task stays yielded
+            # under a real target (`x, _, _ = yield a, b, a` -> `x, _ = yield a, b`)
+            del missing[(t, v)]
+            del p_old[(t, v)]
+            if p_new.get((t, v), 0):
+                p_old[(t, v)] = p_new[(t, v)]
     if missing and not (p_new - p_old):
         alias_dumps = []
         ok = True
@@ -286,8 +293,18 @@ def strip_async_dump(text):
 
 
 class _Env(dict):
+    """Local namespace for evaluating a statement's expressions outside their function: parameters
+    have their defaults, names of the module and builtins resolve normally (KeyError here sends the
+    lookup on to the globals), any other name - a local of the function - is 1."""
+
+    def __init__(self, glob, **kw):
+        super().__init__(**kw)
+        self.glob = glob
+
     def __missing__(self, key):
-        if key.startswith("undefined_") or key in ("__builtins__",):
+        import builtins
+
+        if key.startswith("undefined_") or key == "__builtins__" or key in self.glob or hasattr(builtins, key):
             raise KeyError(key)
         return 1
 
@@ -307,7 +324,7 @@ def eval_equal(module_text, old_expr, new_expr):
         return False, None, "module did not execute: %r" % (e,)
     results = []
     for expr in (old_expr, new_expr):
-        env = _Env(p=3, q="w", pair=(4, 5))
+        env = _Env(glob, p=3, q="w", pair=(4, 5))
         try:
             code = compile(ast.Expression(body=expr), "<c16-expr>", "eval")
             calls = glob.get("CALLS")
@@ -740,12 +757,18 @@ class Judge:
         # an ignore comment that named the diagnostic just fixed is now unused: a legitimate new
         # unused_ignore report (only when that code is enabled), not collateral damage
         new_lines = pylines(new_text)
+        deletion = all(a.strip() in ("", "pass") for a in adds)
         for k in [k for k in got if k[3] == "unused_ignore" and k not in expect]:
             ln = k[1]
             names = ASYNQ_MERGE if code in ASYNQ_MERGE else {code}
             if ln is not None and 1 <= ln <= len(new_lines) and any(("ignore[%s]" % c) in new_lines[ln - 1] for c in names):
                 del got[k]
                 self.stats["stale_ignore_after_fix"] += 1
+            elif deletion and ln is not None and ln == dels[0] - 1 and 1 <= ln <= len(new_lines) and new_lines[ln - 1].strip().startswith(IGNORE):
+                # the statement that an own-line ignore comment stood above was deleted by the
+                # fix: whatever that comment silenced is gone with it
+                del got[k]
+                self.stats["stale_ignore_above_deleted_statement"] += 1
         if code in ASYNQ_MERGE or code in ASYNQ_WRAP:
             # batching yields, or adding one, legitimately changes the neighbouring yield-batching
             # diagnostics (they are about which yields could be combined)
